@@ -449,3 +449,62 @@ def run_enclosure(pid, imports, cases, prec=200, per_file=40, timeout_goal=120, 
             badidx.add(enc[code][0])
         undecided = sorted(notok - badidx)
     return dict(ok=sorted(ok), bad=sorted(bad), undecided=undecided, broken=broken)
+
+
+# ---------------------------------------------------------------- interval-evaluation route (fast)
+def ivlit(x):
+    f = F(x)
+    return '(ivq (%d) (%d))' % (f.numerator, f.denominator)
+
+
+def ivlist(xs):
+    return coq_list(ivlit(x) for x in xs)
+
+
+IV_HEADER = ('From Coq Require Import ZArith List.\nFrom PV Require Import Base.Num Base.IvNum %s.\nImport ListNotations.\n'
+             'Definition E64 := ivq 1 4503599627370496.\nDefinition E32 := ivq 1 8388608.\n')
+
+
+def run_interval(pid, imports, cases, per_file=150, tag='iv', timeout=1200):
+    """cases: list of dict(idx=int, expr=str with the placeholder @NF@ for the Num instance (a Coq term : list iv),
+    comps=[(i, impl_value, tol)]).  The model is evaluated by vm_compute over Base/IvNum.v (256-bit interval
+    floats of the Interval library; undecided comparisons are resolved both ways).  Per component the verdict is
+    0 (|model - impl| <= tol), 1 (certainly > tol) or 2 (undecided).  Returns dict(ok, bad, undecided, broken) like
+    run_enclosure; only a certain excess counts as a disagreement."""
+    hdr = IV_HEADER % imports
+    files = []
+    byidx = {c['idx']: c for c in cases}
+    for k, sh in enumerate([cases[j:j + per_file] for j in range(0, len(cases), per_file)]):
+        items = []
+        for c in sh:
+            cs = coq_list('(%d%%nat, %s, %s)' % (i, ivlit(v), ivlit(t)) for i, v, t in c['comps'])
+            et = c['expr'].replace('@NF@', 'NumIvT')
+            ef = c['expr'].replace('@NF@', 'NumIvF')
+            items.append('(%d%%nat, let cs := %s in comb_l (iv_check (%s) cs) (iv_check (%s) cs))' % (c['idx'], cs, et, ef))
+        files.append(('%s_%03d' % (tag, k), hdr + 'Eval vm_compute in %s.\n' % coq_list(items)))
+    res = run_case_files(pid, files, timeout=timeout)
+    ok, bad, undecided, broken = [], [], [], []
+    seen = set()
+    for name, (rc, out) in res.items():
+        if rc != 0:
+            broken.append((name, out[-1000:]))
+            continue
+        flat = ' '.join(out.split())
+        for m in re.finditer(r'\(\s*(\d+)(?:%nat)?\s*,\s*\[([0-9;\s%nat]*)\]\s*\)', flat):
+            idx = int(m.group(1))
+            codes = [int(x.replace('%nat', '').strip()) for x in m.group(2).split(';') if x.strip()]
+            seen.add(idx)
+            c = byidx[idx]
+            if len(codes) != len(c['comps']):
+                undecided.append(idx)
+                continue
+            if any(cd == 1 for cd in codes):
+                bad += [(idx, c['comps'][j][0]) for j, cd in enumerate(codes) if cd == 1]
+            elif any(cd == 2 for cd in codes):
+                undecided.append(idx)
+            else:
+                ok.append(idx)
+    for c in cases:
+        if c['idx'] not in seen and not broken:
+            undecided.append(c['idx'])
+    return dict(ok=sorted(ok), bad=sorted(bad), undecided=sorted(set(undecided)), broken=broken)
